@@ -117,6 +117,12 @@ class FakeServiceInfo:
             raise exc
         self._v4 = [ip_address(a) for a in ent.get("v4", [])]
         self._v6 = [ip_address(a) for a in ent.get("v6", [])]
+        if outcome == "partial":
+            # python-zeroconf semantics: the A/AAAA records arrived (addresses are known) but the TXT/SRV records never
+            # do, so the request runs to its timeout and reports "incomplete" (False); the addresses stay usable
+            w.fire("mdns_partial")
+            await sim_sleep(w, max(0.0, tmo - lat))
+            return False
         return True
 
     def ip_addresses_by_version(self, version: Any) -> list:
